@@ -98,6 +98,51 @@ pub fn run_case(ctx: &mut CaseCtx) -> CaseResult {
             format!("spec {:?} {spec_string:?}: {detail}", model.entries),
         );
     }
+    // the active specification is replaced by one that differs only in the text filter (other
+    // regex, regex added, regex removed): filtering must follow the new one
+    if res.verdict == Verdict::Held && rng.chance(1, 2) {
+        let mut m2 = model.clone();
+        m2.text = match (&model.text, rng.below(3)) {
+            (Some(_), 0) => None,
+            _ => {
+                let mut t = spec::gen_text(rng);
+                while Some(&t) == model.text.as_ref() {
+                    t = spec::gen_text(rng);
+                }
+                Some(t)
+            }
+        };
+        let real2 = if via_string {
+            LogSpecification::parse(m2.to_spec_string(rng)).ok()
+        } else {
+            Some(m2.to_real_via_builder())
+        };
+        if let Some(r2) = real2 {
+            handle.set_new_spec(r2);
+            let mut msgs2: Vec<String> = match &m2.text {
+                Some(t) => t.messages(),
+                None => vec!["plain message".to_string()],
+            };
+            if let Some(t) = &model.text {
+                msgs2.extend(t.messages().into_iter().take(3));
+            }
+            let g2 = spec::check_grid(boxed.as_ref(), watch, &m2, &targets, &msgs2);
+            res.count("grid_points", g2.points);
+            res.count("text_filter_only_changes", 1);
+            if let Some((kind, detail)) = g2.mismatch {
+                res.violate(
+                    &kind,
+                    format!("C02/{kind}/after-text-filter-only-change"),
+                    format!(
+                        "spec {:?}, text filter {:?} -> {:?}: {detail}",
+                        model.entries,
+                        model.text.as_ref().map(|t| t.regex()),
+                        m2.text.as_ref().map(|t| t.regex())
+                    ),
+                );
+            }
+        }
+    }
     // additional writers: ceiling admitted by the global max level, brace target delivery,
     // enabled() never false for a record the writer gets
     let max = log::max_level();
